@@ -157,6 +157,9 @@ func (cx *Ctx) buildFuncUnitOnce(fn *ssa.Function, fc *FuncContract, blacklist m
 			pname = fmt.Sprintf("_p%d", pi)
 		}
 		v := fr.havocParam(st, p.Type(), pname)
+		if isTime(p.Type()) {
+			v.Zone = u.enc.declConst("zone$"+pname, "Int")
+		}
 		fr.vals[p] = v
 		if v.T != "" {
 			u.inputs = append(u.inputs, ModelVar{Name: p.Name(), Term: v.T, Ty: p.Type()})
@@ -190,7 +193,7 @@ func (cx *Ctx) buildFuncUnitOnce(fn *ssa.Function, fc *FuncContract, blacklist m
 	for i, c0 := range fc.Ensures {
 		for _, pc := range fr.splitClause(c0) {
 			c := pc.c
-			t := penv.trBool(c.E)
+			t := trBoolTol(penv, c, "false")
 			id := fmt.Sprintf("%s/post:%s%s", fr.fnLabel(), clauseName(c0, i), pc.suffix)
 			if c.Region != nil {
 				// known-finding scoping: the clause must discharge outside the region; inside it is expected to fail
